@@ -343,7 +343,7 @@ class HistSat(Hist):
             labels = list(ln.gates)
             ln = ln.copy()
             ln.blocks = {}
-            ln.outputs = [rng.choice(labels) for _ in range(rng.randint(9, 20))]
+            ln.outputs = [rng.choice(labels) for _ in range(rng.randint(9, 28))]
             try:
                 left_real = observe.build_real(self.Circuit, self.GT, ln)
             except Exception:
@@ -351,7 +351,7 @@ class HistSat(Hist):
             self.res.stats.probes.bump('miter:more-than-eight-outputs')
         n, k = len(ln.inputs), len(ln.outputs)
         flavour = weighted_choice(rng, [('random', 4), ('rewrite', 3), ('same', 1), ('member', 3), ('mismatch', 2), ('one-gate-off', 3),
-                                        ('permuted-labels', 3)])
+                                        ('permuted-labels', 3), ('one-output-negated', 3 if k > 8 else 1)])
         right_slot = None
         if left_real is not left.real and flavour in ('member', 'same'):
             flavour = 'one-gate-off'
@@ -390,6 +390,16 @@ class HistSat(Hist):
                 rng.shuffle(perm)
                 rn.inputs = perm
                 self.res.stats.probes.bump('miter:same-input-labels-in-different-order')
+            elif flavour == 'one-output-negated':
+                # the two circuits differ at exactly one output position (first, second and last are favoured)
+                rn = ln.copy()
+                rn.blocks = {}
+                if not rn.outputs or '__neg_out__' in rn.gates:
+                    return
+                idx = rng.choice((0, min(1, k - 1), k - 1, rng.randrange(k)))
+                rn.gates['__neg_out__'] = ('NOT', (rn.outputs[idx],))
+                rn.outputs[idx] = '__neg_out__'
+                self.res.stats.probes.bump('miter:operands-differ-at-one-output-position')
             elif flavour in ('rewrite', 'one-gate-off'):
                 rn = ln.copy()
                 rn.blocks = {}
@@ -473,9 +483,21 @@ class HistSat(Hist):
             st.bump('miter:value-checked')
         # the miter must be evaluable by cirbo itself ("one output that evaluates to True exactly ...")
         try:
-            jrow = rng.randrange(L)
-            row = [bool((jrow >> (n - 1 - i)) & 1) for i in range(n)]
-            miter.evaluate(row)
+            rows = [rng.randrange(L)]
+            ones = [j for j in range(min(L, 4096)) if (want >> j) & 1]
+            zeros = [j for j in range(min(L, 4096)) if not (want >> j) & 1]
+            if ones:
+                rows.append(rng.choice(ones))
+            if zeros:
+                rows.append(rng.choice(zeros))
+            for jrow in rows:
+                # lane j of the model is the assignment whose binary encoding is j, input 0 most significant
+                row = [bool((jrow >> (n - 1 - i)) & 1) for i in range(n)]
+                val = miter.evaluate(row)
+                if len(val) != 1 or bool(val[0]) != bool((want >> jrow) & 1):
+                    self.violate('C13', 'value', f'evaluate:outputs={"1" if k == 1 else ("2-8" if k <= 8 else ("9-16" if k <= 16 else "17+"))}',
+                                 f'miter.evaluate({row}) = {val}; the output vectors {"differ" if (want >> jrow) & 1 else "agree"} on this input')
+                    break
             st.bump('miter:evaluated-by-cirbo')
         except Exception as e:  # noqa
             self.violate('C13', 'not-evaluable', f'outputs={"1" if k == 1 else "n"}:{exc_name(e)}',
